@@ -37,6 +37,8 @@ func callsUnderIf(f *lib.File, body ast.Node, suffix string) []string {
 	return res
 }
 
+func renderBlock(f *lib.File, b *ast.BlockStmt) string { return f.Render(b) }
+
 func main() {
 	lib.Main("C05", func(r lib.Repo, e *lib.Emitter) {
 		// ---- Searcher.SearchDocs loop
@@ -246,5 +248,121 @@ func main() {
 				e.Strs("paginateBody", st, "conditions and assignments of paginateIDs, source order")
 			}
 		}
-	}, "fracmanager/searcher.go", "fracmanager/list.go", "seq/qpr.go", "seq/seq.go", "proxy/search/ingestor.go")
+		// ---- API boundary: storeapi.GrpcV1.doSearch
+		if f, err := r.Load("storeapi/grpc_search.go"); err != nil {
+			e.Missing("grpc_search.go", err)
+		} else {
+			if fd := f.Func("GrpcV1", "doSearch"); fd == nil {
+				e.Missing("doSearchConversions", "doSearch not found")
+			} else {
+				var conv, params, order []string
+				ast.Inspect(fd.Body, func(n ast.Node) bool {
+					switch x := n.(type) {
+					case *ast.AssignStmt:
+						if len(x.Lhs) == 1 {
+							switch f.Render(x.Lhs[0]) {
+							case "from", "to", "limit":
+								conv = append(conv, f.Render(x))
+								order = append(order, "convert "+f.Render(x.Lhs[0]))
+							}
+						}
+					case *ast.IfStmt:
+						c := f.Render(x.Cond)
+						if strings.Contains(c, "StoreModeHot") || strings.Contains(c, "earlierThanOldestFrac") {
+							conv = append(conv, "if "+c)
+							order = append(order, "hot-check")
+						}
+					case *ast.CompositeLit:
+						if strings.HasSuffix(f.Render(x.Type), "SearchParams") {
+							order = append(order, "params")
+							for _, el := range x.Elts {
+								if kv, ok := el.(*ast.KeyValueExpr); ok {
+									params = append(params, f.Render(kv.Key)+": "+f.Render(kv.Value))
+								}
+							}
+						}
+					case *ast.CallExpr:
+						if strings.HasSuffix(f.Render(x.Fun), "SearchDocs") {
+							order = append(order, "SearchDocs("+f.Render(x.Args[1])+")")
+						}
+					}
+					return true
+				})
+				e.Strs("doSearchConversions", conv, "doSearch: request field conversions and the hot-store conditions, source order")
+				e.Strs("doSearchParams", params, "doSearch: the SearchParams literal")
+				e.Strs("doSearchOrder", order, "doSearch: order of conversions, hot check, parameter construction, search")
+			}
+			if fd := f.Func("GrpcV1", "earlierThanOldestFrac"); fd != nil {
+				var st []string
+				for _, s := range fd.Body.List {
+					st = append(st, f.Render(s))
+				}
+				e.Strs("earlierThanOldest", st, "GrpcV1.earlierThanOldestFrac")
+			} else {
+				e.Missing("earlierThanOldest", "not found")
+			}
+		}
+		if f, err := r.Load("storeapi/grpc_v1.go"); err != nil {
+			e.Missing("grpc_v1.go", err)
+		} else if fd := f.Func("", "parseStoreError"); fd == nil {
+			e.Missing("storeErrorCodes", "parseStoreError not found")
+		} else {
+			var codes []string
+			ast.Inspect(fd.Body, func(n ast.Node) bool {
+				if is, ok := n.(*ast.IfStmt); ok {
+					for _, s := range is.Body.List {
+						if rs, ok := s.(*ast.ReturnStmt); ok && len(rs.Results) == 2 {
+							codes = append(codes, f.Render(is.Cond)+" => "+f.Render(rs.Results[0]))
+						}
+					}
+				}
+				return true
+			})
+			e.Strs("storeErrorCodes", codes, "parseStoreError: error -> response code")
+		}
+		// ---- API boundary: proxy request -> store request, validation, replica order
+		if f, err := r.Load("proxy/search/search_request.go"); err != nil {
+			e.Missing("search_request.go", err)
+		} else if fd := f.Func("SearchRequest", "GetAPISearchRequest"); fd == nil {
+			e.Missing("apiRequestFields", "GetAPISearchRequest not found")
+		} else {
+			var fields []string
+			ast.Inspect(fd.Body, func(n ast.Node) bool {
+				if cl, ok := n.(*ast.CompositeLit); ok && strings.HasSuffix(f.Render(cl.Type), "SearchRequest") {
+					for _, el := range cl.Elts {
+						if kv, ok := el.(*ast.KeyValueExpr); ok {
+							fields = append(fields, f.Render(kv.Key)+": "+f.Render(kv.Value))
+						}
+					}
+				}
+				return true
+			})
+			e.Strs("apiRequestFields", fields, "SearchRequest.GetAPISearchRequest: the store request literal")
+		}
+		if f, err := r.Load("proxy/search/ingestor.go"); err == nil {
+			if fd := f.Func("Ingestor", "Search"); fd != nil {
+				var val []string
+				ast.Inspect(fd.Body, func(n ast.Node) bool {
+					if is, ok := n.(*ast.IfStmt); ok && strings.Contains(f.Render(is.Cond), "sr.Size") {
+						val = append(val, f.Render(is.Cond))
+					}
+					return true
+				})
+				e.Strs("proxyValidation", val, "Ingestor.Search: request validation conditions")
+			}
+			if fd := f.Func("Ingestor", "searchShard"); fd != nil {
+				var st []string
+				ast.Inspect(fd.Body, func(n ast.Node) bool {
+					if is, ok := n.(*ast.IfStmt); ok && strings.Contains(f.Render(is.Cond), "ShuffleReplicas") {
+						st = append(st, "if "+f.Render(is.Cond)+" "+renderBlock(f, is.Body)+" else "+f.Render(is.Else))
+					}
+					if as, ok := n.(*ast.AssignStmt); ok && len(as.Lhs) == 1 && f.Render(as.Lhs[0]) == "host" {
+						st = append(st, f.Render(as))
+					}
+					return true
+				})
+				e.Strs("replicaOrder", st, "searchShard: the visiting order of the replicas")
+			}
+		}
+	}, "fracmanager/searcher.go", "fracmanager/list.go", "seq/qpr.go", "seq/seq.go", "proxy/search/ingestor.go", "storeapi/grpc_search.go", "storeapi/grpc_v1.go", "proxy/search/search_request.go")
 }
